@@ -97,6 +97,13 @@ def _exchange(rng, index, ex, alg, enc, form, res, tr, mode):
         # up to four recipients
         extra_alg = rng.pick([a for a in W.RFC_ALGS if a not in rjwe.DIRECT])
         k, _ = W.keys_for(rng.sub("k4"), extra_alg, enc, None, {"kid": "r4"})
+        # header parameter names must stay disjoint over the three locations (RFC 7516 section 7.2.1): what is specific
+        # to a recipient moves from the shared headers into the headers of the recipients that were there before
+        for shared in (cell["protected"], cell["unprotected"] or {}):
+            for name in ("alg", "kid"):
+                if name in shared:
+                    v = shared.pop(name)
+                    cell["rcpts"] = [(dict(h or {}, **({} if name in (h or {}) else {name: v})), kk) for h, kk in cell["rcpts"]]
         cell["rcpts"].append(({"alg": extra_alg, "kid": "r4"}, k))
         cell["rkeys"].append(k)
         cell["algs"].append(extra_alg)
